@@ -540,6 +540,29 @@ func laFrame(c *Ctx, rule string) {
 		}
 		return false, ""
 	}
+	// magicWriter: the function's only sink activity is one write of the magic (directly or through such a function)
+	var magicWriter func(fn *ssa.Function, depth int) (bool, string)
+	magicWriter = func(fn *ssa.Function, depth int) (bool, string) {
+		ws := ops.byFn[fn]
+		if len(ws) != 1 || depth > 3 {
+			return false, fmt.Sprintf("%s makes %d sink writes", u.FnName(fn), len(ws))
+		}
+		call, ok := ws[0].Site.(*ssa.Call)
+		if !ok {
+			return false, "the sink write of " + u.FnName(fn) + " is deferred or spawned"
+		}
+		if call.Call.IsInvoke() && len(call.Call.Args) == 1 {
+			if m, sv := isMagic(call.Call.Args[0]); m {
+				return true, ""
+			} else {
+				return false, fmt.Sprintf("%s writes %q, not the magic", u.FnName(fn), sv)
+			}
+		}
+		if sc := call.Call.StaticCallee(); sc != nil && u.InUniverse(sc) {
+			return magicWriter(sc, depth+1)
+		}
+		return false, "the sink write of " + u.FnName(fn) + " is not a write of the magic"
+	}
 	for _, p := range u.TC {
 		short := strings.TrimPrefix(p, "uni/")
 		ctor := u.Func(p, "NewParquetWriter")
@@ -574,16 +597,10 @@ func laFrame(c *Ctx, rule string) {
 				}
 				writers++
 				okLead = false
-				if len(ws) == 1 {
-					if call, ok := ws[0].Site.(*ssa.Call); ok && call.Call.IsInvoke() && len(call.Call.Args) == 1 {
-						if m, sv := isMagic(call.Call.Args[0]); m {
-							okLead = true
-						} else {
-							why = fmt.Sprintf("an option passed by NewParquetWriter writes %q, not the magic", sv)
-						}
-					}
+				if m, w2 := magicWriter(fn, 0); m {
+					okLead = true
 				} else {
-					why = fmt.Sprintf("option %s makes %d sink writes", u.FnName(fn), len(ws))
+					why = "an option passed by NewParquetWriter: " + w2
 				}
 			}
 			if writers != 1 {
@@ -613,11 +630,19 @@ func laFrame(c *Ctx, rule string) {
 			}
 			ac, _ := a.Site.(*ssa.Call)
 			bc, _ := b.Site.(*ssa.Call)
-			if ac != nil && bc != nil && a.Kind == Derived && strings.HasSuffix(a.Callee, ".Footer") && bc.Call.IsInvoke() && len(bc.Call.Args) == 1 {
-				if m, s := isMagic(bc.Call.Args[0]); m && dominatesInstr(ac, bc) {
+			if ac != nil && bc != nil && a.Kind == Derived && strings.HasSuffix(a.Callee, ".Footer") {
+				m, s := false, ""
+				if bc.Call.IsInvoke() && len(bc.Call.Args) == 1 {
+					m, s = isMagic(bc.Call.Args[0])
+					s = fmt.Sprintf("Close ends with a write of %q, not the magic", s)
+				} else if sc := bc.Call.StaticCallee(); sc != nil && u.InUniverse(sc) {
+					m, s = magicWriter(sc, 0)
+					s = "Close ends with: " + s
+				}
+				if m && dominatesInstr(ac, bc) {
 					okTrail = true
 				} else if !m {
-					why2 = fmt.Sprintf("Close ends with a write of %q, not the magic", s)
+					why2 = s
 				} else {
 					why2 = "the magic can be written without the footer having been written"
 				}
